@@ -152,11 +152,35 @@ def _select_sites(ctx, funcs):
 def r2(ctx, sch):
     f = gtf_method(ctx, "_update_relations")
     nested = [g for lst in f.nested.values() for g in lst]
+    # helpers of the same class that _update_relations calls are part of the computation
+    helpers_ = []
+    for c in calls_in(f.node):
+        for g in ctx.proj.resolve_call(c, f)[0]:
+            if g.cls is not None and g is not f and g.name not in ("_insert", "_do_merge", "_id_handler", "_replace") and g not in helpers_:
+                helpers_.append(g)
     sels = _select_sites(ctx, [f])
+    hsels = _select_sites(ctx, helpers_)
     pair = [s for s in sels if s.stmts[0].tables().count("relations") >= 2]
-    ext = [s for s in sels if any(e[0] == "call" and e[1] in ("min", "max") for e, _a in s.stmts[0].cols)]
+    is_ext = lambda s: any(e[0] == "call" and e[1] in ("min", "max") for e, _a in s.stmts[0].cols)
+    ext = [s for s in sels if is_ext(s)]
+    hext = [s for s in hsels if is_ext(s)]
     ctx.floor("R2", len(pair), 1, "transcript/gene pair queries")
-    ctx.floor("R2", len(ext), 2, "extent queries")
+    pymm = [c for g in [f] + helpers_ for c in calls_in(g.node) if isinstance(c.func, ast.Name) and c.func.id in ("min", "max")]
+    ctx.ob("R2", bool(ext or hext or pymm),
+           "the extent of a derived transcript/gene is the minimum start and the maximum end over its subfeature children (MIN/MAX aggregates)", func=f,
+           sig="extents computed with MIN(start)/MAX(end)" if (ext or hext or pymm) else "derived extents are not computed as MIN(start) .. MAX(end)",
+           detail=None if (ext or hext or pymm) else "e.g. 'first row's start, last row's end under ORDER BY start, end' is wrong for nested or overlapping exons")
+    for s in hext:
+        # extent query factored into a helper: aggregates and join shape are still decidable, the record flow is not followed
+        try:
+            got = S.to_cq(s.stmts[0], sch, {0: "id", 1: "sub"})
+            spec_e = S.to_cq(S.parse(SPEC_EXTENT), sch)
+            same_body = S.cq_equivalent(_with_proj(got, []), _with_proj(spec_e, []))
+            agg = sorted((t[1], _strip_alias(t[2])) for t in got.proj if t[0] == "agg")
+            ctx.ob("R2", agg == [("max", "end"), ("min", "start")] and same_body, "extent helper %s aggregates MIN(start)/MAX(end) over the subfeature children of its argument" % s.func.name,
+                   node=s.call, func=s.func, sig="%s: extent helper %s" % (s.func.name, "≅ specification" if same_body and agg == [("max", "end"), ("min", "start")] else "differs: %s" % got.describe()))
+        except S.SQLError as e:
+            ctx.ob("R2", False, "extent helper query normalises", node=s.call, func=s.func, sig="%s: %s" % (s.func.name, e))
     # ---- pair query
     s = pair[0]
     spec = S.to_cq(S.parse(SPEC_PAIR), sch)
@@ -184,6 +208,8 @@ def r2(ctx, sch):
     ctx.require(ploop is not None, "loop over the (transcript, gene) pairs not found")
     tvar, gvar = [e.id for e in ploop.target.elts]
     # ---- extent queries
+    if not ext:
+        return
     spec_e = S.to_cq(S.parse(SPEC_EXTENT), sch)
     roles = {}
     for s in ext:
